@@ -12,7 +12,7 @@ sys.path.insert(0, HERE)
 import engine  # noqa: E402
 
 
-def run_property(pid, spec, tier, seed, logdir):
+def run_property(pid, spec, tier, seed, logdir, jobs=4):
     """spec: dict(module=..., K=..., N=...).  Returns dict(results=[...], build_error=None|str, diff=...)"""
     out = {"results": [], "build_error": None, "diff": None}
     os.makedirs(logdir, exist_ok=True)
@@ -36,13 +36,44 @@ def run_property(pid, spec, tier, seed, logdir):
         vectors += extra(seed, 40 if tier == "quick" else 400)
     t0 = time.time()
     try:
-        n, mism = engine.differential(files, vectors, native_map=native_map, K=K, N=N, lits=lits, overrides=getattr(mod, "DIFF_OVERRIDES", None))
+        n, mism = engine.differential(files, vectors, native_map=native_map, K=K, N=N, lits=lits,
+                                      overrides=getattr(mod, "DIFF_OVERRIDES", getattr(mod, "OVERRIDES", None)),
+                                      composites=getattr(mod, "COMPOSITES", None))
     except Exception as ex:  # noqa: BLE001
         out["build_error"] = "differential validation could not run: %r" % (ex,)
         return out
     out["diff"] = {"vectors": n, "mismatches": mism[:10], "n_mismatches": len(mism), "wall_s": round(time.time() - t0, 2)}
-    # 2. queries
-    for q in mod.make_queries(tier):
+    # 2. queries (each in its own process: z3 is single-threaded)
+    qnames = [q.__name__ for q in mod.make_queries(tier)]
+    only = os.environ.get("VERIF_ONLY")
+    if only:
+        qnames = [q for q in qnames if only in q]
+    import concurrent.futures as cf
+    import multiprocessing as mp
+    ctx = mp.get_context("fork")
+    with cf.ProcessPoolExecutor(max_workers=max(1, jobs), mp_context=ctx) as ex:
+        futs = [ex.submit(_run_query, spec, tier, qn, mism, logdir) for qn in qnames]
+        for f in futs:
+            try:
+                out["results"].append(f.result())
+            except Exception as exn:  # noqa: BLE001
+                out["results"].append({"harness": spec["module"] + "::?", "query": "?", "result": "INCONCLUSIVE",
+                                       "reason": "query process crashed: %r" % (exn,), "obligations": [], "counterexamples": [], "confirmed": []})
+    return out
+
+
+def _run_query(spec, tier, qname, mism, logdir):
+    mod = importlib.import_module(spec["module"])
+    files = mod.FILES
+    K = spec.get("K", 6)
+    N = spec.get("N", 24)
+    lits = getattr(mod, "LITS", None)
+    if callable(lits):
+        lits = lits()
+    overrides = getattr(mod, "OVERRIDES", None)
+    native_map = getattr(mod, "NATIVE_MAP", {})
+    q = [x for x in mod.make_queries(tier) if x.__name__ == qname][0]
+    if True:
         r = engine.solve_query(q, files, tier, K=K, N=N, timeout_ms=spec.get("timeout_ms", 300000), native_map=native_map,
                                lits=lits, overrides=overrides)
         r["harness"] = "%s::%s" % (spec["module"], q.__name__)
@@ -68,5 +99,4 @@ def run_property(pid, spec, tier, seed, logdir):
             r["reason"] = "encoder disagrees with the real code on %d concrete vectors (first: %s)" % (len(mism), json.dumps(mism[0])[:300])
         with open(os.path.join(logdir, q.__name__ + ".json"), "w") as f:
             json.dump(r, f, indent=1, default=str)
-        out["results"].append(r)
-    return out
+        return r
